@@ -61,3 +61,19 @@ func init() {
 		},
 	}
 }
+
+func init() {
+	checks["C37"] = &checkDef{
+		Level:       levelOther,
+		Explanation: "Symbolic execution of the real rueidisprob slidingBloomFilter (NewSlidingBloomFilter incl. initialize, Add, AddMulti, Exists, ExistsMulti; slidingbloomfilter.go) against a Redis model that runs the real initialise/add/exists script texts (read-write and read-only exists variants) in the harness-side Lua interpreter. The server clock is a symbolic number of milliseconds; the rotation lock (SET lastRotation <time> PX windowHalf NX) expires by that clock; RENAME/SET rotate the two generations exactly as the scripts say. After the real initialisation both generations get arbitrary contents (unknown function of the bit offset) and an arbitrary time passes (so the lock is held or expired at the add); then Add(x) or AddMulti([y,x]) at time t0, up to N further operations (adds of other items, queries) at arbitrary non-decreasing times ≤ t0 + floor(window_ms/2), each of which may rotate, and a final ExistsMulti([q,x]) at an arbitrary time ≤ t0 + floor(window_ms/2). Oracle: x is reported present by every query in that interval, at its position.",
+		Assumptions: []string{"murmur3/index() replaced by an arbitrary deterministic function of (item, i) (see C35)", "the Lua interpreter and the Redis model (TIME, SET PX NX with expiry by the server clock, MSET, EXISTS, RENAME, BITFIELD u1, INCRBY) are harness code", "the four filter keys are only touched by these scripts (no eviction, no foreign DEL)"},
+		Trusted:     []string{"harness/luasym.go.txt"},
+		Outside:     []string{"Reset/Delete (excluded by the statement)", "sub-millisecond timing", "windows other than 1 s, 2.001 s, 1 h (the window enters only through floor(ms/2))"},
+		Bounds:      map[string]any{"quick": "k = 1, one operation between add and final query", "thorough": "k ∈ {1,2}, two operations in between"},
+		specs: func(tier string) []specRef {
+			return []specRef{
+				probSpec("VerifC37_window", P{"max_k": q(tier, int64(1), 2), "ops": q(tier, int64(1), 2)}, probOverrides, 3000, "boundary", "rotated", "present"),
+			}
+		},
+	}
+}
